@@ -306,7 +306,7 @@ def defuse(rc):
 _BW_MERGE = "            if evidence_time:\n                evidence_time.update(interface_nodes_dict)\n            mid_bp = BeliefPropagation(self.one_and_half_junction_tree)\n            self._update_belief(mid_bp, self.in_clique, potential_dict[time_slice - 1])"
 
 MUTANTS = [
-    dict(kind="repair", name="backward-merges-whenever-carried-evidence-exists", file=DI,
+    dict(kind="repair", name="backward-merges-whenever-carried-evidence-exists", file=DI, gone="C17.carry",
          old=_BW_MERGE, new="            if interface_nodes_dict:\n                evidence_time = {**(evidence_time or {}), **interface_nodes_dict}\n            mid_bp = BeliefPropagation(self.one_and_half_junction_tree)\n            self._update_belief(mid_bp, self.in_clique, potential_dict[time_slice - 1])"),
     dict(kind="break", name="backward-carried-evidence-stale-again", file=DI, expect="C17.carry",
          old="                    if k in self.interface_nodes_0\n                }\n            else:\n                interface_nodes_dict = {}\n", new="                    if k in self.interface_nodes_0\n                }\n"),
